@@ -44,8 +44,21 @@ class OrderCtx(object):
                     kinds = [self.kind(l[1]) for l in ev.loops]
                     self.filled_from.setdefault(loc[1:3], []).extend(kinds)
 
+    def _by_name(self, attr):
+        kinds = set()
+        for c in self.model.classes.values():
+            ia2 = c.own_init_attrs(self.model).get(attr)
+            if ia2 is not None:
+                kinds.add(str(ia2.kind(self.model)))
+        if kinds & {"set", "dict"}:
+            return UNORDERED      # conservative: some class holds an unordered container under that name
+        if kinds == {"list"}:
+            return CONTENT
+        return None
+
     def attr_kind(self, t):
-        """order kind of an attribute chain by the __init__ kind of its last attribute"""
+        """order kind of an attribute chain by the __init__ kind of its last attribute; when the receiver's class
+        cannot be resolved (back-pointers such as _metadata), by the attribute's name over all classes"""
         cx = self.cx
         chain = []
         x = t
@@ -54,28 +67,19 @@ class OrderCtx(object):
             x = x[1]
         chain.reverse()
         if not cx.is_self(x) or cx.cls is None:
-            return None
+            return self._by_name(chain[-1]) if chain else None
         cls = cx.cls
         for i, a in enumerate(chain):
             ia = cls.init_attrs(self.model).get(a)
             if ia is None:
-                # _metadata / _variant back-pointers: resolve by attribute name over all classes (same name, same kind)
-                kinds = set()
-                for c in self.model.classes.values():
-                    ia2 = c.own_init_attrs(self.model).get(chain[-1])
-                    if ia2 is not None:
-                        kinds.add(str(ia2.kind(self.model)))
-                if len(kinds) == 1:
-                    k = list(kinds)[0]
-                    return {"set": UNORDERED, "dict": UNORDERED, "list": CONTENT}.get(k)
-                return None
+                return self._by_name(chain[-1])
             k = ia.kind(self.model)
             if i == len(chain) - 1:
                 return {"set": UNORDERED, "dict": UNORDERED, "list": CONTENT}.get(k if isinstance(k, str) else "")
             if isinstance(k, tuple) and k[0] == "instance":
                 cls = k[1]
             else:
-                return None
+                return self._by_name(chain[-1])
         return None
 
     def kind(self, t, at_seq=None):
@@ -310,6 +314,12 @@ def r_inicfg(model, rep):
            msg="" if ok else "optionxform must keep option names unchanged")
 
 
+# the only stores into object state a writer may perform, one line of reason each
+PURE_EXCEPTIONS = {
+    ("composeinfo.Variant.serialize", "self.release.is_layered"): (True, "a layered-product variant's release is layered by definition; constant, idempotent"),
+}
+
+
 def r_writer_pure(model, rep):
     """writers store to object state only constants (or the current version): repeated dumps cannot diverge"""
     n = 0
@@ -326,7 +336,8 @@ def r_writer_pure(model, rep):
         for ev in cx.events:
             if ev.kind in ("store", "del") and T.root_of(ev.target) == S:
                 n += 1
-                if ev.kind == "del" or ev.value[0] != "const":
+                allowed = PURE_EXCEPTIONS.get((f.qname, T.show(ev.target)))
+                if ev.kind == "del" or allowed is None or ev.value != ("const", allowed[0]):
                     bad.append("line %s: %s" % (ev.lineno, T.show(ev.target)))
             if ev.kind == "call" and ev.value[1][0] == "attr" and T.root_of(ev.value[1][1]) == S and ev.value[1][1] != S \
                     and ev.value[1][2] in ("pop", "clear", "remove", "discard", "popitem", "sort", "reverse", "append", "add", "update", "setdefault", "extend"):
